@@ -361,6 +361,8 @@ class Interp:
                     name = "AnyException" if av is not None else base_name(e.id)
                     if av is not None and av.const and av.const[0] == "exc":
                         name = av.const[1]
+                    elif av is not None and av.kinds and av.kinds <= frozenset(["err", "null"]):
+                        name = "ValidationError"     # an error object produced by validation
                 else:
                     name = base_name(norm(e))
                 self.raise_(name, st, "raise %s" % name)
@@ -689,6 +691,13 @@ class Interp:
                 return s
             if isinstance(op, (ast.In, ast.NotIn)):
                 present = truth == isinstance(op, ast.In)
+                # the test completed without raising: the right operand is not a scalar
+                rc = self.peek(r, s)
+                if rc is not None and (rc.kinds & frozenset(["null", "bool", "int", "float"])):
+                    nr = rc.without(["null", "bool", "int", "float"])
+                    if nr.empty:
+                        return None
+                    self.poke(r, nr, s)
                 if isinstance(r, (ast.Name, ast.Attribute)):
                     kr = self.keyrepr(l)
                     cname = norm(r)
@@ -829,7 +838,7 @@ class Interp:
     def attr_place(self, e, s):
         """`name.attr` on a typed object variable: refinable like a local."""
         if isinstance(e, ast.Attribute) and isinstance(e.value, ast.Name) and e.value.id in s.env and \
-                any(k.startswith("obj:") for k in s.env[e.value.id].kinds):
+                any(k.startswith("obj:") or k == "err" for k in s.env[e.value.id].kinds):
             return (e.value.id, "." + e.attr)
         return None
 
@@ -1001,7 +1010,7 @@ class Interp:
     def module_value(self, mod, name, expr):
         """Abstract value of a module-level binding."""
         if name == "meta_schemas":
-            return obj("URIDict")
+            return AV(["obj:URIDict"], vals=AV(["cls:Validator"]))
         if name == "validators":
             return AV(["dict"], vals=AV(["cls:Validator"]))
         if name == "_unset":
@@ -1243,7 +1252,7 @@ class Interp:
             inrange = base.kinds <= frozenset(["tuple"]) and base.items is not None and idx.const is not None
             if base.nonempty and idx.const is not None and idx.const[0] == "c" and idx.const[1] in (0, -1) and not ("str" in base.kinds and not base.nonempty):
                 inrange = True
-            if not inrange:
+            if not inrange and (idx.kinds & frozenset(["int", "bool", "opaque"])):
                 self.need(False, "IndexError", e, "sequence index may be out of range: %s" % norm(e)[:50], base.describe())
             if base.items is not None and idx.const is not None and idx.const[0] == "c" and isinstance(idx.const[1], int) and -len(base.items) <= idx.const[1] < len(base.items):
                 out.append(base.items[idx.const[1]])
